@@ -21,7 +21,9 @@ pub fn inverse_gamma_lr<T: MomTropFloat>(
         epsilon_tolerance.to_f64(),
     );
 
-    if res.is_nan() {
+    // failures are errors, not values: only a finite, strictly positive quantile is Ok
+    // (a non-converged Schroeder iterate can come out NaN, negative or zero)
+    if !(res.is_finite() && res > 0.0) {
         Err(GammaError {})
     } else {
         Ok(a.from_f64(res))
